@@ -201,7 +201,7 @@ func verifNodes(tier int) []JsonNode {
 }
 
 func verifMetadataSets() [][]Metadata {
-	return [][]Metadata{nil, {SET}, {MULTISET}, {Setkeys("a")}, {MERGE}, {SetPrecision(0.5)}, {SET, Setkeys("a")}}
+	return [][]Metadata{nil, {SET}, {MULTISET}, {Setkeys("a")}, {MERGE}, {SetPrecision(0.5)}, {SET, Setkeys("a")}, {MULTISET, Setkeys("a")}}
 }
 
 func verifShow(x interface{}) string {
@@ -402,7 +402,7 @@ func verifCloneDiff(d Diff) Diff {
 // verifPointerDocs: documents whose keys need (or seem to need) JSON Pointer escaping, holding
 // scalars and short lists, one and two levels deep.
 func verifPointerDocs() []JsonNode {
-	keys := []string{"a/b", "~0", "~", "x~1y", "c~d", "~1", "m~n/o", "", "01", "007", "+2", "-0", "1e2", " 1", "é"}
+	keys := []string{"a/b", "~0", "~", "x~1y", "c~d", "~1", "m~n/o", "", "01", "007", "+2", "-0", "1e2", " 1", "é", ".", "..", "-1"}
 	n := func(f float64) JsonNode { return jsonNumber(f) }
 	vals := []JsonNode{n(1), n(2), jsonArray{}, jsonArray{n(1)}, jsonArray{n(1), n(2)}, jsonArray{n(2)}, jsonObject{}}
 	var out []JsonNode
